@@ -63,6 +63,9 @@ pub fn mem_report(base: usize) -> (usize, usize) {
 }
 use std::panic::{catch_unwind, AssertUnwindSafe};
 
+static CURRENT: std::sync::Mutex<Option<(std::time::Instant, String)>> = std::sync::Mutex::new(None);
+const CASE_LIMIT_S: u64 = 90;
+
 fn run_case(kind: &str, args: &[&str]) -> String {
     match kind {
         "enc" => codec_cases::enc(args),
@@ -114,6 +117,9 @@ fn main() {
                     writeln!(o, "@{} {}", idx, id).unwrap();
                     o.flush().unwrap();
                 }
+                // watchdog: a case that does not come back is an observation (`hang`), and the driver
+                // restarts the harness behind it
+                *CURRENT.lock().unwrap() = Some((std::time::Instant::now(), id.to_string()));
                 let res = catch_unwind(AssertUnwindSafe(|| run_case(kind, &toks[2..])));
                 let mut obs = match res {
                     Ok(s) => s,
@@ -123,11 +129,25 @@ fn main() {
                 if np > 0 && obs != "panic" {
                     obs.push_str(&format!(" PANICS={}", np));
                 }
+                *CURRENT.lock().unwrap() = None;
                 let mut o = out.lock();
                 writeln!(o, "{} {}", id, obs).unwrap();
                 o.flush().unwrap();
             }
         })
         .unwrap();
+    std::thread::spawn(|| loop {
+        std::thread::sleep(std::time::Duration::from_millis(200));
+        let cur = CURRENT.lock().unwrap().clone();
+        if let Some((t0, id)) = cur {
+            if t0.elapsed() > std::time::Duration::from_secs(CASE_LIMIT_S) {
+                let so = std::io::stdout();
+                let mut o = so.lock();
+                let _ = writeln!(o, "{} hang", id);
+                let _ = o.flush();
+                std::process::exit(97);
+            }
+        }
+    });
     h.join().unwrap();
 }
